@@ -8,6 +8,7 @@ import (
 	"fmt"
 	"go/token"
 	"go/types"
+	"strings"
 
 	"golang.org/x/tools/go/ssa"
 )
@@ -128,6 +129,16 @@ func (f *frame) evalCommon(in ssa.Instruction) bool {
 					f.assumeT(x.typeInv(in.Type(), t, f.st))
 				}
 				return true
+			}
+			if x.collectFacts && a.Kind != aCell {
+				if fact := x.typeInvTop(in.Type(), t, f.m().top()); fact != "true" {
+					if !strings.Contains(t, "q!") {
+						x.pureFacts = append(x.pureFacts, fact)
+					} else if n := len(x.qFacts); n > 0 && f.mode == 0 {
+						// well-typedness of a value loaded under a quantifier: hypothesis of that quantifier
+						x.qFacts[n-1] = append(x.qFacts[n-1], fact)
+					}
+				}
 			}
 			f.set(in, Val{T: t})
 			return true
@@ -250,12 +261,12 @@ func (f *frame) evalCommon(in ssa.Instruction) bool {
 				f.set(in, Val{A: &na})
 				return true
 			}
-			if xv.A == nil {
-				// heap-allocated array behind a plain ref: boxed array
-				c, srt := x.boxComp(u.Elem())
+			if xv.A == nil && !isStruct(arr.Elem()) {
+				// heap-allocated array behind a plain ref: its elements live in the element heap
+				c, srt := x.elemComp(arr.Elem())
 				x.comp(c, srt)
 				f.check("nil", not(eq(xv.T, "0")), in.Pos())
-				f.set(in, Val{A: &Addr{Kind: aField, Comp: c, Ref: xv.T, Idx: idx, Typ: arr.Elem()}})
+				f.set(in, Val{A: &Addr{Kind: aElem, Comp: c, Ref: xv.T, Idx: idx, Typ: arr.Elem()}})
 				return true
 			}
 			x.abstract("index address through unsupported pointer form")
